@@ -30,6 +30,9 @@
 //   limits, which travel in the same parameter list); 2 encodings (PL_CDR_LE, PL_CDR_BE).
 //   = 39063 (W, R) pairs x 4 baselines x 2 encodings = 312504 cases for (a), for the real Reader and for
 //   the real Writer each (one real endpoint per distinct own QoS: 3564 Readers, 3564 Writers).
+//   (c) the ANNOUNCEMENT step itself on a real DomainParticipant (test xc_sedp_announced_qos_is_own_qos,
+//       oracle and bound in the comment above it): what a DataReader / DataWriter created through the
+//       public API with a QoS overriding its Topic's announces is the QoS it judges with.
 #[cfg(test)]
 mod verif_xc_qos_verdict {
   use std::{
@@ -535,5 +538,143 @@ mod verif_xc_qos_verdict {
     });
     assert!(n == 2 * n_pairs_per_encoding(), "vacuity guard: {} cases enumerated, expected {}", n, 2 * n_pairs_per_encoding());
     assert!(n_matched > 50_000 && n_unmatched > 50_000, "vacuity guard: {} matched / {} unmatched cases", n_matched, n_unmatched);
+  }
+
+  // ------------------------------------------------------------------ (c) the announcement of a REAL local endpoint
+  // What a DataReader / DataWriter created through the public API announces about itself: the record the
+  // DiscoveryDB keeps for SEDP (get_local_topic_reader / get_local_topic_writer), after the PL_CDR trip.
+  // Oracle: an endpoint specifies, per policy, the value given at its creation, else the one of its Topic
+  // (Subscriber / Publisher QoS empty); (c10.announce.own) that is the QoS the endpoint itself holds (qos(),
+  // what its RTPS Reader / Writer judges with); (c10.announce.reader / .writer) the announcement carries
+  // exactly that on every request/offered policy; and for every writer and reader created on the same Topic
+  // the two call-site expressions of (a), on the ANNOUNCED data of the other side and the OWN QoS of the
+  // judging side, give the verdict of violated(specified W, specified R).
+  // Bound: ONE real DomainParticipant (domain 83); 6 policies x {unspecified, 2 values}: durability
+  //   {Volatile, TransientLocal}, deadline {1 s, INFINITE}, ownership {Shared, Exclusive(5)}, liveliness
+  //   {Automatic INFINITE, ManualByTopic 1 s}, reliability {BestEffort, Reliable(100 ms)}, destination
+  //   order {2}; all 15 pairs of policies: Topic QoS T and endpoint QoS E each through all 9 combinations
+  //   of the two policies -> per pair 9 Topics, 81 DataReaders, 81 DataWriters (2430 endpoints in all),
+  //   and 9 x 9 x 9 (writer, reader) verdict pairs per pair of policies, both encodings.
+  const ANNOUNCE_VALUES: [(usize, [usize; 3]); 6] =
+    [(0, [0, 1, 2]), (2, [0, 3, 4]), (4, [0, 1, 3]), (5, [0, 2, 5]), (6, [0, 1, 3]), (7, [0, 1, 2])];
+
+  type Rxo = (
+    Option<policy::Durability>, Option<policy::Presentation>, Option<policy::Deadline>, Option<policy::LatencyBudget>,
+    Option<policy::Ownership>, Option<policy::Liveliness>, Option<policy::Reliability>, Option<policy::DestinationOrder>,
+  );
+  fn rxo_part(q: &QosPolicies) -> Rxo {
+    (q.durability(), q.presentation(), q.deadline(), q.latency_budget(), q.ownership(), q.liveliness(), q.reliability(), q.destination_order())
+  }
+  // per policy: the endpoint's explicit value, else the Topic's
+  fn specified(topic: &Q, explicit: &Q) -> Q {
+    Q {
+      durability: explicit.durability.or(topic.durability),
+      presentation: explicit.presentation.or(topic.presentation),
+      deadline: explicit.deadline.or(topic.deadline),
+      latency: explicit.latency.or(topic.latency),
+      ownership: explicit.ownership.or(topic.ownership),
+      liveliness: explicit.liveliness.or(topic.liveliness),
+      reliability: explicit.reliability.or(topic.reliability),
+      dest_order: explicit.dest_order.or(topic.dest_order),
+      extras: false,
+    }
+  }
+  fn retry<T, E: fmt::Debug>(what: &str, mut f: impl FnMut() -> Result<T, E>) -> T {
+    let mut last = None;
+    for _ in 0..1500 {
+      match f() {
+        Ok(x) => return x,
+        Err(e) => { last = Some(e); std::thread::sleep(std::time::Duration::from_millis(2)); } // command queue to the event loop full
+      }
+    }
+    panic!("could not create {what}: {last:?}");
+  }
+
+  #[test]
+  fn xc_sedp_announced_qos_is_own_qos() {
+    use crate::{dds::topic::TopicKind, test::random_data::RandomData, DomainParticipant};
+    let dp = DomainParticipant::new(83).expect("participant creation failed");
+    let publisher = dp.create_publisher(&QosPolicies::qos_none()).unwrap();
+    let subscriber = dp.create_subscriber(&QosPolicies::qos_none()).unwrap();
+    let db = dp.discovery_db();
+    let (mut n_endpoints, mut n_overriding, mut n_verdicts) = (0u64, 0u64, 0u64);
+    let (mut n_matched, mut n_unmatched) = (0u64, 0u64);
+    let mut topic_no = 0;
+    for a in 0..ANNOUNCE_VALUES.len() {
+      for b in a + 1..ANNOUNCE_VALUES.len() {
+        let ((p, vp), (q, vq)) = (ANNOUNCE_VALUES[a], ANNOUNCE_VALUES[b]);
+        let mut combos = vec![];
+        for x in vp { for y in vq { combos.push(with(with(NONE, p, x), q, y)); } }
+        for t in &combos {
+          topic_no += 1;
+          let topic = dp.create_topic(format!("xc_announce_{topic_no}"), "RandomData".to_string(), &build(t), TopicKind::WithKey).unwrap();
+          // (specified QoS, own QoS, announced record per encoding)
+          let mut readers: Vec<(Q, QosPolicies, Vec<QosPolicies>)> = vec![];
+          let mut writers: Vec<(Q, QosPolicies, Vec<QosPolicies>)> = vec![];
+          for e in &combos {
+            let spec = specified(t, e);
+            let explicit = if *e == NONE { None } else { Some(build(e)) };
+            // ---- DataReader
+            let reader = retry("DataReader", || subscriber.create_datareader_cdr::<RandomData>(&topic, explicit.clone()));
+            let own = reader.qos();
+            assert!(rxo_part(&own) == rxo_part(&build(&spec)),
+              "XC-WITNESS label=c10.announce.own topic_qos={:?} reader_created_with={:?}: the DataReader holds {:?}; specified (explicit value, else the Topic's) is {:?}", t, e, own, spec);
+            let record = db.read().unwrap().get_local_topic_reader(reader.guid()).cloned();
+            let record = record.unwrap_or_else(|| panic!("XC-WITNESS label=c10.announce.reader topic_qos={:?} reader_created_with={:?}: the new DataReader has no record to announce in the DiscoveryDB", t, e));
+            let mut seen = vec![];
+            for enc in ENCODINGS {
+              let bytes = record.to_pl_cdr_bytes(enc.1).unwrap_or_else(|err| panic!("XC-WITNESS label=c10.sedp.transport topic_qos={:?} reader_created_with={:?} encoding={}: the DataReader's announcement cannot be encoded ({:?})", t, e, enc.0, err));
+              let announced = DiscoveredReaderData::from_pl_cdr_bytes(&bytes, enc.1).unwrap_or_else(|err| panic!("XC-WITNESS label=c10.sedp.transport topic_qos={:?} reader_created_with={:?} encoding={}: the DataReader's announcement is rejected by the parser ({:?})", t, e, enc.0, err));
+              let announced = announced.subscription_topic_data.qos();
+              assert!(rxo_part(&announced) == rxo_part(&own),
+                "XC-WITNESS label=c10.announce.reader topic_qos={:?} reader_created_with={:?} encoding={}: the DataReader judges offers against its own QoS {:?} but announces the request {:?} to the writers (they must be the same on every request/offered policy, else the two sides decide on different requests)", t, e, enc.0, spec, announced);
+              seen.push(announced);
+            }
+            readers.push((spec, own, seen));
+            drop(reader);
+            // ---- DataWriter
+            let writer = retry("DataWriter", || publisher.create_datawriter_cdr::<RandomData>(&topic, explicit.clone()));
+            let own = writer.qos();
+            assert!(rxo_part(&own) == rxo_part(&build(&spec)),
+              "XC-WITNESS label=c10.announce.own topic_qos={:?} writer_created_with={:?}: the DataWriter holds {:?}; specified (explicit value, else the Topic's) is {:?}", t, e, own, spec);
+            let record = db.read().unwrap().get_local_topic_writer(writer.guid()).cloned();
+            let record = record.unwrap_or_else(|| panic!("XC-WITNESS label=c10.announce.writer topic_qos={:?} writer_created_with={:?}: the new DataWriter has no record to announce in the DiscoveryDB", t, e));
+            let mut seen = vec![];
+            for enc in ENCODINGS {
+              let bytes = record.to_pl_cdr_bytes(enc.1).unwrap_or_else(|err| panic!("XC-WITNESS label=c10.sedp.transport topic_qos={:?} writer_created_with={:?} encoding={}: the DataWriter's announcement cannot be encoded ({:?})", t, e, enc.0, err));
+              let announced = DiscoveredWriterData::from_pl_cdr_bytes(&bytes, enc.1).unwrap_or_else(|err| panic!("XC-WITNESS label=c10.sedp.transport topic_qos={:?} writer_created_with={:?} encoding={}: the DataWriter's announcement is rejected by the parser ({:?})", t, e, enc.0, err));
+              let announced = announced.publication_topic_data.qos();
+              assert!(rxo_part(&announced) == rxo_part(&own),
+                "XC-WITNESS label=c10.announce.writer topic_qos={:?} writer_created_with={:?} encoding={}: the DataWriter judges requests against its own QoS {:?} but announces the offer {:?} to the readers (they must be the same on every request/offered policy, else the two sides decide on different offers)", t, e, enc.0, spec, announced);
+              seen.push(announced);
+            }
+            writers.push((spec, own, seen));
+            drop(writer);
+            n_endpoints += 2;
+            if *e != NONE && spec != *t { n_overriding += 2; }
+          }
+          // ---- both sides, every writer x reader created on this Topic
+          for (w, w_own, w_seen) in &writers {
+            for (r, r_own, r_seen) in &readers {
+              let bad = violated(w, r);
+              for (ie, enc) in ENCODINGS.iter().enumerate() {
+                let at_writer = w_own.compliance_failure_wrt(&r_seen[ie]);
+                let at_reader = w_seen[ie].compliance_failure_wrt(r_own);
+                assert!(verdict_ok(at_reader, &bad),
+                  "XC-WITNESS label=c10.sedp.reader-side topic_qos={:?} writer_qos={:?} reader_qos={:?} encoding={}: the reader's participant decides {:?} (None = matched) from the DataWriter's announcement; the request/offered rules on the specified QoS give {} (writer's participant decides {:?}); announced offer: {:?}",
+                  t, w, r, enc.0, at_reader, want(&bad), at_writer, w_seen[ie]);
+                assert!(verdict_ok(at_writer, &bad),
+                  "XC-WITNESS label=c10.sedp.writer-side topic_qos={:?} writer_qos={:?} reader_qos={:?} encoding={}: the writer's participant decides {:?} (None = matched) from the DataReader's announcement; the request/offered rules on the specified QoS give {} (reader's participant decides {:?}); announced request: {:?}",
+                  t, w, r, enc.0, at_writer, want(&bad), at_reader, r_seen[ie]);
+                n_verdicts += 1;
+                if bad.is_empty() { n_matched += 1 } else { n_unmatched += 1 }
+              }
+            }
+          }
+        }
+      }
+    }
+    assert!(n_endpoints == 2 * 15 * 81 && n_overriding > 1000, "vacuity guard: {} endpoints, {} of them overriding their Topic's QoS", n_endpoints, n_overriding);
+    assert!(n_verdicts == 2 * 15 * 729 && n_matched > 2000 && n_unmatched > 2000, "vacuity guard: {} verdicts ({} matched / {} unmatched)", n_verdicts, n_matched, n_unmatched);
   }
 }
